@@ -4,6 +4,10 @@ mod bufio;
 mod config;
 mod log;
 mod utils;
+#[cfg(feature = "verif")]
+mod verif;
+#[cfg(feature = "verif")]
+pub use self::verif::{VerifDump, VerifFileStats, VerifIndexEntry};
 
 use std::{
     cell::RefCell,
